@@ -21,7 +21,7 @@ UVL_NAMES = {
     "number-like": "1e3", "case-variant": "alpha_1", "true": "true",
     "tab-inside": "tab\there", "leading-blank": " lead", "trailing-blank": "trail ", "double-blank": "two  blanks",
     "percent": "50% off", "percent-escape-look-alike": "a%22b%25",
-    "apostrophe": "it's", "apostrophes-at-both-ends": "'x'", "apostrophe-first": "'lead", "comma-colon": "a,b:c", "slashes": "a/b\\c", "hash-at": "#tag@home",
+    "apostrophe": "it's", "apostrophes-at-both-ends": "'q'", "apostrophes-around-two-words": "'a b'", "apostrophe-first": "'lead", "comma-colon": "a,b:c", "slashes": "a/b\\c", "hash-at": "#tag@home",
 }
 
 
